@@ -48,12 +48,16 @@ type c08Item struct {
 	// error path: a message lacking required fields and the names one of which the error must carry
 	missMsg   []byte
 	missNames []string
+	// error path 2: prefixes of msg that the reference decoder rejects (cuts inside known and
+	// unknown fields)
+	cutMsgs [][]byte
 }
 
 func newC08Item(r *gen.Rand, s *schema.Struct) *c08Item {
 	vc := gen.DefaultValCfg()
 	vc.Budget = 30
 	vc.MaxDepth = 3
+	vc.Holder = true // holders carry well-formed unknown fields: decodes retain, encodes re-emit them
 	it := &c08Item{s: s, v: gen.NewValue(r, s, vc)}
 	want := ref.Encode(s, it.v.Elem())
 	it.size = len(want)
@@ -64,6 +68,14 @@ func newC08Item(r *gen.Rand, s *schema.Struct) *c08Item {
 		it.msg = nil
 	} else {
 		it.decoded = ref.Canon(s, exp.Elem(), ref.CmpOpts{})
+	}
+	if it.msg != nil && len(it.msg) > 2 {
+		for k := 0; k < 6 && len(it.cutMsgs) < 3; k++ {
+			cut := it.msg[:1+r.Intn(len(it.msg)-1)]
+			if _, _, err := ref.Decode(s, cut, reflect.New(s.Go).Elem()); err != nil {
+				it.cutMsgs = append(it.cutMsgs, append([]byte(nil), cut...))
+			}
+		}
 	}
 	// a message that omits every top-level required field (if the type has any)
 	var names []string
@@ -104,6 +116,17 @@ func typeAddr(t reflect.Type) uintptr {
 
 // use runs one API call on an item and returns a mismatch description or "".
 func (it *c08Item) use(op int) string {
+	if op%7 == 5 && len(it.cutMsgs) > 0 {
+		// error path 2: a truncated message fails here as it does sequentially
+		r := fDecode(it.cutMsgs[op%len(it.cutMsgs)], reflect.New(it.s.Go).Interface())
+		if r.panicked() {
+			return fmt.Sprintf("DecodeObject of a truncated message panicked: %v [%s]", r.pv, shortStack(r.stack))
+		}
+		if r.err == nil {
+			return "DecodeObject accepted a truncated message the reference decoder rejects"
+		}
+		return ""
+	}
 	if op%7 == 6 && it.missMsg != nil {
 		// error path: the same protocol error as in a sequential execution
 		r := fDecode(it.missMsg, reflect.New(it.s.Go).Interface())
@@ -182,7 +205,7 @@ func runC08(c *harness.Ctx, idx int) {
 	// steady-state items: registered before the episode
 	if c08Steady == nil {
 		sr := gen.New(c.Seed ^ 0x51ead)
-		for _, z := range []interface{}{&zoo.Leaf{}, &zoo.Node{}, &zoo.MutA{}, &zoo.Defs2{}, &zoo.UnknownNest{}, &zoo.Wide{}} {
+		for _, z := range []interface{}{&zoo.Leaf{}, &zoo.Node{}, &zoo.MutA{}, &zoo.Defs2{}, &zoo.UnknownNest{}, &zoo.Wide{}, &zoo.NodeU{}, &zoo.WithUnknown{}} {
 			it := newC08Item(sr, gen.Zoo(z))
 			for op := 0; op < 5; op++ {
 				it.use(op)
